@@ -263,7 +263,15 @@ impl Scenario for IrqDispatch {
                     ctx.cov.hit("fault.joy_events");
                 }
                 "step" => {
-                    // resolve open IF bits from what the implementation shows before the step
+                    // resolve what the statements leave open (timer state after a DIV write that may or may not have counted; IF bits
+                    // raised by such writes) from what the implementation shows before the step, so that the step itself is decided
+                    for a in [0xff04u16, 0xff05] {
+                        let v = m.read(a);
+                        if !bus.observe(a, v) {
+                            out.push(Violation::new("C07", format!("C07/timer-before-step/{:02x}", a & 0xff), format!("op {}: read {:#06x} = {:#04x} before the step contradicts every admissible timer state", opi, a, v)));
+                            return out;
+                        }
+                    }
                     let f = m.read(0xff0f);
                     if !bus.observe(0xff0f, f) {
                         out.push(Violation::new("C07", "C07/if-before-step".to_string(), format!("op {}: IF = {:#04x} before the step, reference {:#04x}", opi, f & 0x1f, bus.iflag)));
